@@ -179,4 +179,7 @@ mod verif_c10_hist {
         kani::cover!(true);
         std::mem::forget((cache, rx));
     }
+
+    // (HotReloader::make cannot be harnessed: any harness that statically reaches HotReloader::start ->
+    //  thread::Builder::spawn makes kani-compiler 0.68 panic (intrinsics.rs:243), even with spawn stubbed.)
 }
